@@ -67,7 +67,7 @@ def o2_fragments(ctx, n, lossy):
     clock = fresh_env(ctx)
     radio, net = new_net(clock, 0o1)
     total = max(1, (n + 23) // 24)
-    fail_at = ctx.int("fail_at", 0, total - 1) if lossy else None
+    fail_at = ctx.int("fail_at", 0, total - 1) if lossy is True else None
     uids = []
 
     def acks(k, pkt):
@@ -77,6 +77,12 @@ def o2_fragments(ctx, n, lossy):
             return True
         return s_not(fail_at == uids.index(pkt.uid))
     radio.link = ScriptedLink(acks, by_packet=True)
+    if lossy == "outage":
+        # one fragment (symbolic index) meets an outage of 2, 20, 30, ... 100, 200 ms or for ever, the link then recovers: whatever send()
+        # answers, every frame on the air is the reference frame of its index (no re-slicing, no skipped or re-typed fragment)
+        from checks.netcommon import outage_link
+        slow_at = ctx.int("slow_at", 0, total - 1)
+        outage_link(ctx, radio, clock, (2, 20, 30, 40, 50, 60, 70, 80, 90, 100, 200, None), only=lambda i: bool(slow_at == i))
     mtype = ctx.int("type", 0, 127)
     msg = ctx.bytes("msg", n)
     h = RF24NetworkHeader(0, mtype)
@@ -98,7 +104,12 @@ def o2_fragments(ctx, n, lossy):
         one = dict(from_node=0o1, to_node=0, frame_id=fid, message_type=mtype, reserved=0, len=n)
         one.update({("b", j): b for j, b in enumerate(blist(msg))})
         ref = [one]
-    if lossy:
+    if lossy == "outage":
+        ctx.check(len(frames) <= total, "no more than ceil(n/24) distinct frames")
+        if bool(ok == True):  # noqa: E712
+            ctx.check(len(frames) == total, "send() answers True only after all ceil(n/24) frames went out")
+        ref = ref[:len(frames)]
+    elif lossy:
         fa = ctx.conc(fail_at)
         ctx.check(ok == False, "send() reports the aborted transmission")  # noqa: E712
         ctx.check(len(frames) == fa + 1, "transmission stops at the fragment that was never acknowledged")
@@ -112,7 +123,7 @@ def o2_fragments(ctx, n, lossy):
              rf["message_type"], rf["reserved"]] + [rf[("b", j)] for j in range(rf["len"])]
         ctx.check(len(fr) == len(w) and bytes_eq(fr, w), "on-air frame = reference fragmenter's frame (shared id, "
                   "first/more/last, descending counter, original type in the last reserved byte)")
-    if not lossy:
+    if not lossy or (lossy == "outage" and bool(ok == True)):  # noqa: E712
         ra = FS.Reassembler()
         for fr in frames:
             ra.feed(fr[0] | (fr[1] << 8), fr[4] | (fr[5] << 8), fr[6], fr[7], fr[8:])
@@ -148,6 +159,8 @@ def jobs(tier):
         out.append(Job("O2-fragments-on-air", o2_fragments, dict(n=n, lossy=False), cost=1 + n // 24))
     for n in ((25, 49, 144) if tier == "quick" else (25, 48, 49, 72, 73, 96, 97, 120, 121, 144)):
         out.append(Job("O2-aborted-send-restores-type", o2_fragments, dict(n=n, lossy=True), cost=20 + n // 4))
+    for n in ((49, 72) if tier == "quick" else (25, 48, 49, 72, 97, 144)):
+        out.append(Job("O2-fragments-through-an-outage", o2_fragments, dict(n=n, lossy="outage"), cost=30 + n // 4))
     out.append(Job("O3-id-counter", o3_ids, {}))
     return out
 
